@@ -1,13 +1,17 @@
 import NbioVerif.Model.Life
 import NbioVerif.DrvCommon
 /-! lifedrv: runs the Lifecycle model on the annotated ops of `hlife` (see harness/cmd/hlife/main.go). One engine,
-several conns; every op is a composition of the model's small steps (`flip`, `teardown`, `dialed`, `userOp`, …). -/
+several conns. Every conn starts as `Life.mk kind` and every change of its lifecycle state goes through `Life.step`
+(`stepE` below is the only place where a `Conn` is written): an op of the harness is a sequence of actions, and an
+action that the model does not enable makes the op's result line a `MODEL-ERROR` (a difference for the runner).
+So the states compared with the code are exactly the states `Life.runAll (mk kind) acts` reaches, which the theorems
+of `Properties/C03.lean` quantify over. -/
 open Life
 
 def errStr : Err → String
   | .nil => "nil" | .eof => "eof" | .closed => "closed" | .rtimeout => "rtimeout" | .wtimeout => "wtimeout"
   | .dtimeout => "dtimeout" | .overflow => "overflow" | .epipe => "epipe" | .refused => "refused" | .reset => "reset"
-  | .unreach => "unreach" | .again => "again" | .user k => s!"u{k}" | .other => "other"
+  | .unreach => "unreach" | .again => "again" | .ebadf => "ebadf" | .eexist => "eexist" | .user k => s!"u{k}" | .other => "other"
 
 def parseErr (s : String) : Option Err :=
   if s == "nil" then some .nil else if s == "eof" then some .eof else if s == "closed" then some .closed
@@ -60,51 +64,73 @@ structure DS where
   opens : List String := []
   closes : List String := []
   dials : List String := []
+  err : Option String := none         -- a step the model does not enable was asked for
 
 def DS.get (d : DS) (id : Nat) : Option E := d.es.find? (·.id == id)
 def DS.put (d : DS) (e : E) : DS :=
   if d.es.any (·.id == e.id) then { d with es := d.es.map fun x => if x.id == e.id then e else x }
   else { d with es := d.es ++ [e] }
 
+/-- the harness holds a `*Conn` for it: announced / registered, or created by the harness itself (`AddConn`) -/
+def reach (c : Conn) : Bool := c.visible || c.kind == .add
+
 def left (c : Conn) : Nat := c.q.foldl (fun a i => match i with | .buf n => a + n | .file _ => a) 0
 
+def DS.fail (d : DS) (m : String) : DS := if d.err.isSome then d else { d with err := some m }
+
 /-- note the callbacks a lifecycle step produced (difference of the counters) -/
-def note (d : DS) (id : Nat) (c0 c1 : Conn) (dialErr : Err) : DS :=
+def note (d : DS) (id : Nat) (a : Act) (c0 c1 : Conn) : DS :=
   let d := if c1.opens > c0.opens then { d with opens := d.opens ++ [toString id] } else d
-  let d := if c1.dialN > c0.dialN then { d with dials := d.dials ++ [s!"{id}:{errStr dialErr}"] } else d
+  let d :=
+    if c1.dialN > c0.dialN then
+      match a with
+      | .dialStartFail _ => d          -- the error return of DialAsync is the report (ret=)
+      | .teardown =>
+        let e := match c0.td with | some .nil => Err.closed | some e => e | none => Err.other
+        { d with dials := d.dials ++ [s!"{id}:{errStr e}"] }
+      | _ => { d with dials := d.dials ++ [s!"{id}:nil"] }
+    else d
   if c1.closeN > c0.closeN then { d with closes := d.closes ++ [s!"{id}:{errStr c1.cerr}"] } else d
 
-/-- run the pending teardown of a conn (the flipper does, before its call returns), note the callbacks; a closing
-    UDP listener closes its sessions, a closing session leaves its listener's map -/
+/-- THE way a conn's lifecycle state changes: one enabled `Life.step` -/
+def stepE (d : DS) (id : Nat) (a : Act) : DS :=
+  match d.get id with
+  | none => d.fail s!"no-conn-{id}"
+  | some e =>
+    match step e.c a with
+    | none => d.fail ((s!"disabled({reprStr a})@{id}").replace " " "_")
+    | some c1 => note (d.put { e with c := c1 }) id a e.c c1
+
+def stepsE (d : DS) (id : Nat) (as : List Act) : DS := as.foldl (fun d a => stepE d id a) d
+
+/-- a new conn: `Life.mk kind`, nothing else -/
+def newE (d : DS) (e : E) (k : Kind) : DS := d.put { e with c := mk k }
+
+/-- run the pending teardown of a conn (the flipper does, before its call returns); a closing UDP listener closes
+    its sessions, a closing session leaves its listener's map -/
 partial def settle (d : DS) (id : Nat) : DS :=
   match d.get id with
   | none => d
   | some e =>
-    match e.c.td with
-    | none => d
-    | some cause =>
-      let c1 := teardown e.c
-      let d := note (d.put { e with c := c1 }) id e.c c1 (if cause == .nil then .closed else cause)
-      if e.c.kind == .udp then
-        e.sessions.foldl (fun d (_, sid) =>
-          match d.get sid with
-          | some se => settle (d.put { se with c := flip se.c .nil true }) sid
-          | none => d) (d.put { e with c := c1, sessions := [] })
-      else if e.c.kind == .sess then
-        match d.get e.parent with
-        | some pe => d.put { pe with sessions := pe.sessions.filter (·.2 != id) }
-        | none => d
-      else d
+    if e.c.td.isNone then d else
+    let d := stepE d id .teardown
+    if e.c.kind == .udp then
+      let d := match d.get id with | some e1 => d.put { e1 with sessions := [] } | none => d
+      e.sessions.foldl (fun d (_, sid) => if (d.get sid).isSome then settle (stepE d sid (.flip .nil true)) sid else d) d
+    else if e.c.kind == .sess then
+      match d.get e.parent with
+      | some pe => d.put { pe with sessions := pe.sessions.filter (·.2 != id) }
+      | none => d
+    else d
 
 def closeE (d : DS) (id : Nat) (e : Err) : DS :=
-  match d.get id with
-  | none => d
-  | some x => settle (d.put { x with c := flip x.c e true }) id
+  if (d.get id).isSome then settle (stepE d id (.flip e true)) id else d
 
 def failE (d : DS) (id : Nat) (e : Err) : DS :=
-  match d.get id with
-  | none => d
-  | some x => settle (d.put { x with c := flip x.c e false }) id
+  if (d.get id).isSome then settle (stepE d id (.flip e false)) id else d
+
+/-- a queue change / dropped write deadline by a write-path call on an open conn -/
+def setQE (d : DS) (id : Nat) (q : List Item) : DS := stepE d id (.setQ q)
 
 /-- newToWriteBuf: append to the tail buffer while it stays within 64 KiB, else a new item -/
 def enqueue (q : List Item) (n : Nat) : List Item :=
@@ -140,8 +166,9 @@ def emit (d : DS) (what ret : String) (id? : Option Nat) (log : Nat := 0) : Stri
         (if d.mode == "lt" then "201b" else if d.mode == "et" then "8000201b" else "c000201b")
       else "-"
     | none => "-"
+  let ret := match d.err with | some m => s!"MODEL-ERROR:{m}" | none => ret
   (s!"R {what} ret={ret} open=[{String.intercalate "," d.opens}] close=[{String.intercalate "," (sortStrs d.closes)}] dial=[{String.intercalate "," d.dials}] c={cl} left={lf} items={it} log={log} im={im}",
-   { d with opens := [], closes := [], dials := [] })
+   { d with opens := [], closes := [], dials := [], err := none })
 
 /-- the read part of an event on a stream conn: data is consumed; an error on an empty queue closes -/
 def readStream (d : DS) (e : E) : DS :=
@@ -165,13 +192,12 @@ def readUdp : Nat → DS → Nat → DS
         | some _ => readUdp f (d.put { e with dq := rest }) id
         | none =>
           let sid := 100 * id + e.nsess + 1
-          let sc : Conn := { kind := .sess, visible := true, pSet := true, opens := 1 }
           let d := d.put { e with dq := rest, nsess := e.nsess + 1, sessions := e.sessions ++ [(p, sid)] }
-          let d := d.put { id := sid, c := sc, parent := id, port := p }
-          readUdp f { d with opens := d.opens ++ [toString sid] } id
+          let d := stepE (newE d { id := sid, c := mk .sess, parent := id, port := p } .sess) sid .sessOpen
+          readUdp f d id
 
 /-- `ev`/`dev`: the poller handles one event for the conn in the fd table -/
-def event (d : DS) (id : Nat) (fl : Flags) (ans : List KAns) (soerr : Option Err) (setSo : Bool) : DS × String :=
+def event (d : DS) (id : Nat) (fl : Flags) (ans : List KAns) : DS × String :=
   match d.get id with
   | none => (d, "nil")
   | some e =>
@@ -180,14 +206,13 @@ def event (d : DS) (id : Nat) (fl : Flags) (ans : List KAns) (soerr : Option Err
     let d :=
       if fl.out then
         if e.c.dial == .pending then
-          let so := if setSo then soerr else none
-          let c1 := dialed e.c so
-          let d := note (d.put { e with c := c1 }) id e.c c1 .nil
-          settle d id
+          -- writability of a dialing socket: the kernel has a verdict (nothing scripted = connected)
+          let d := if e.c.kres.isNone then stepE d id (.kconnect none) else d
+          settle (stepE d id .dialed) id
         else if e.c.closed || e.c.q.isEmpty then d
         else
           let (q, failed) := flushQ 64 e.c.q ans
-          let d := d.put { e with c := { e.c with q := q } }
+          let d := setQE d id q
           if failed then failE d id .epipe else d
       else d
     -- EPOLLIN
@@ -218,39 +243,71 @@ partial def loop (h : IO.FS.Stream) (d : DS) : IO Unit := do
       IO.println "ok"
       loop h { mode, maxwb := mw.toNat!, stopped := false, listen := ln == "1" }
     else bad
+  | ["C", mode, np, mw, ln, _async] =>
+    -- AsyncReadInPoller: who reads (poller or read task) is not part of the lifecycle; every op ends quiescent
+    if (mode == "lt" || mode == "et" || mode == "os") && np.toNat! > 0 then
+      IO.println "ok"
+      loop h { mode, maxwb := mw.toNat!, stopped := false, listen := ln == "1" }
+    else bad
   | _ =>
     if d.stopped then bad else
     match ws with
     | ["add", id, typ] =>
       let id := id.toNat!
       if (d.get id).isSome || !(typ == "tcp" || typ == "unix") then bad else
-      let c0 : Conn := { kind := .add }
-      let c1 := addReg (addTable (addOpen c0))
-      let d := note (d.put { id, c := c1, unix := typ == "unix" }) id c0 c1 .nil
+      let d := stepsE (newE d { id, c := mk .add, unix := typ == "unix" } .add) id [.addCheck, .addP, .addOpen, .addTable, .addReg]
       say d "add" "nil" (some id)
     | ["addc", id, typ] =>
       -- the open notification closes the conn; addConn carries on: table, then a registration that fails (EBADF)
       let id := id.toNat!
       if (d.get id).isSome || !(typ == "tcp" || typ == "unix") then bad else
-      let c0 : Conn := { kind := .add }
-      let c1 := addOpen c0
-      let d := note (d.put { id, c := c1, unix := typ == "unix" }) id c0 c1 .nil
+      let d := stepsE (newE d { id, c := mk .add, unix := typ == "unix" } .add) id [.addCheck, .addP, .addOpen]
       let d := closeE d id .nil
+      let d := stepsE d id [.addTable, .addReg]
+      match d.get id with
+      | some e => say d "addc" (if e.c.reg then "nil" else "ebadf") (some id)
+      | none => bad
+    | ["addx", id, typ] =>
+      -- Close (nobody manages the conn: no notification), then AddConn: refused by its closed test
+      let id := id.toNat!
+      if (d.get id).isSome || !(typ == "tcp" || typ == "unix") then bad else
+      let d := closeE (newE d { id, c := mk .add, unix := typ == "unix" } .add) id .nil
+      let d := stepE d id .addCheck
       match d.get id with
       | some e =>
-        let c2 := addReg (addTable e.c)
-        say (d.put { e with c := c2 }) "addc" (if c2.reg then "nil" else "ebadf") (some id)
+        if e.c.add == 6 then say d "addx" "closed" (some id)
+        else say (stepsE d id [.addP, .addOpen, .addTable, .addReg]) "addx" "nil" (some id)
       | none => bad
     | ["dialx", id] =>
       -- epoll registration fails: DialAsync returns the error, which is the one report; nobody ever sees the conn
       let id := id.toNat!
       if (d.get id).isSome then bad else
-      say (d.put { id, c := { kind := .dial, dial := .done, dialN := 1, fdOpen := false } }) "dial" "eexist" none
+      say (stepE (newE d { id, c := mk .dial } .dial) id (.dialStartFail .eexist)) "dial" "eexist" none
     | ["addudp", id] =>
       let id := id.toNat!
       if (d.get id).isSome then bad else
-      let c1 : Conn := { kind := .udp, visible := true, pSet := true, inTable := true, reg := true }
-      say (d.put { id, c := c1 }) "addudp" "nil" (some id)
+      say (stepE (newE d { id, c := mk .udp } .udp) id .udpListen) "addudp" "nil" (some id)
+    | ["dialrace", id, _] =>
+      -- the connect completes and the poller handles the writability while DialAsync is between its registration
+      -- and the arming of the dial timeout
+      let id := id.toNat!
+      if (d.get id).isSome then bad else
+      let d := stepsE (newE d { id, c := mk .dial } .dial) id [.dialStart, .kconnect none, .dialed, .armDial]
+      -- the dial timeout elapses inside the op: if it was armed, it fires
+      let d := match d.get id with
+        | some e => if e.c.wT then settle (stepE d id .timerW) id else d
+        | none => d
+      say d "dialrace" "nil" (some id)
+    | ["hupbusy", id, _, _] =>
+      -- data, then more data + the peer's FIN + IN|RDHUP (with AsyncReadInPoller: while the read task is still busy):
+      -- everything is read, then the conn is closed with EOF
+      match d.get id.toNat! with
+      | some e =>
+        if e.c.kind != .add then bad else
+        if !e.c.inTable then say d "hupbusy" "gone" (some e.id) else
+        let d := d.put { e with rq := 0, eof := true, rerr := false }
+        say (closeE d e.id .eof) "hupbusy" "nil" (some e.id)
+      | none => bad
     | ["dgram", id, port, _] =>
       match d.get id.toNat! with
       | some e => if e.c.kind != .udp then bad else say (d.put { e with dq := e.dq ++ [port.toNat!] }) "dgram" "nil" (some e.id)
@@ -258,37 +315,37 @@ partial def loop (h : IO.FS.Stream) (d : DS) : IO Unit := do
     | ["dial", id, kind, ms] =>
       let id := id.toNat!
       if (d.get id).isSome || !(kind == "inprog" || kind == "now" || kind == "refused") then bad else
-      let c0 : Conn := { kind := .dial }
+      let d := newE d { id, c := mk .dial } .dial
       if kind == "refused" then
-        -- connect(2) failed at once: DialAsync returns the error, no conn is created
-        say (d.put { id, c := { c0 with dial := .done, dialN := 1, closed := false, fdOpen := false } }) "dial" "refused" none
+        -- connect(2) failed at once: DialAsync returns the error, nobody ever sees a conn
+        say (stepE d id (.dialStartFail .refused)) "dial" "refused" none
       else
-        let c1 := if kind == "now" then dialNow c0 else dialStart c0 (ms.toNat! > 0)
-        let d := note (d.put { id, c := c1 }) id c0 c1 .nil
-        -- a dial timeout is waited for inside the op
-        let d := if kind == "inprog" && ms.toNat! > 0 then closeE d id .dtimeout else d
+        let d := stepsE d id [if kind == "now" then .dialNow else .dialStart, .armDial]
+        -- a dial timeout is waited for inside the op: the timer that is armed fires
+        let d := if kind == "inprog" && ms.toNat! > 0 then settle (stepE d id .timerW) id else d
         say d "dial" "nil" (some id)
     | ["dev", id, fl, so] =>
       match d.get id.toNat!, parseFlags fl with
       | some e, some fl =>
-        if e.c.kind != .dial || (e.c.dial == .done && e.c.dialN == 1 && !e.c.visible) then bad else
+        if e.c.kind != .dial || (e.c.dial == .done && e.c.dialN == 1 && !reach e.c) then bad else
         let soerr : Option Err := if so == "refused" then some .refused else if so == "unreach" then some .unreach else none
-        let setSo := !e.c.closed && e.c.dial == .pending
-        let (d, ret) := event d e.id fl [] soerr setSo
+        -- the kernel decides once how the connect ends: the first dev of a pending dial
+        let d := if !e.c.closed && e.c.dial == .pending && e.c.kres.isNone then stepE d e.id (.kconnect soerr) else d
+        let (d, ret) := event d e.id fl []
         say d "dev" ret (some e.id)
       | _, _ => bad
     | ["ev", id, fl, ans] =>
       match d.get id.toNat!, parseFlags fl, parseAns ans with
       | some e, some fl, some ans =>
-        if e.c.kind == .sess || !e.c.visible then bad else
-        let (d, ret) := event d e.id fl ans none false
+        if e.c.kind == .sess || !reach e.c then bad else
+        let (d, ret) := event d e.id fl ans
         say d "ev" ret (some e.id)
       | _, _, _ => bad
     | [op, id, _] =>
       if op == "push" || op == "eof" || op == "rderr" then
         match d.get id.toNat! with
         | some e =>
-          if e.c.kind == .sess || e.c.kind == .acc || !e.c.visible then bad else
+          if e.c.kind == .sess || e.c.kind == .acc || !reach e.c then bad else
           let e := if op == "push" then { e with rq := e.rq + (Drv.payload ws[2]!).length }
                    else if op == "eof" then { e with eof := true } else { e with rerr := true }
           say (d.put e) op "nil" (some e.id)
@@ -297,20 +354,16 @@ partial def loop (h : IO.FS.Stream) (d : DS) : IO Unit := do
         let id := id.toNat!
         if (d.get id).isSome || !d.listen then bad else
         let kind := ws[2]!
-        let c0 : Conn := { kind := .dial }
         if kind == "ok" || kind == "okpeer" then
-          let c1 := dialed (dialStart c0 true) none
-          let d := note (d.put { id, c := c1, real := true }) id c0 c1 .nil
-          let a0 : Conn := { kind := .acc }
-          let a1 := addReg (addTable (addOpen a0))
-          let d := note (d.put { id := id + 1000, c := a1, real := true }) (id + 1000) a0 a1 .nil
+          let d := stepsE (newE d { id, c := mk .dial, real := true } .dial) id [.dialStart, .armDial, .kconnect none, .dialed]
+          let d := stepsE (newE d { id := id + 1000, c := mk .acc, real := true } .acc) (id + 1000) [.addCheck, .addP, .addOpen, .addTable, .addReg]
           -- one end is closed again inside the op; the other end sees the peer's orderly close
           let d := if kind == "ok" then closeE (closeE d id .nil) (id + 1000) .eof
                    else closeE (closeE d (id + 1000) .nil) id .eof
           say d "rdial" "nil" (some id)
         else if kind == "refused" then
-          let d := d.put { id, c := dialStart c0 true, real := true }
-          let (d, _) := event d id { out := true, hang := true } [] (some .refused) true
+          let d := stepsE (newE d { id, c := mk .dial, real := true } .dial) id [.dialStart, .armDial, .kconnect (some .refused)]
+          let (d, _) := event d id { out := true, hang := true } []
           say d "rdial" "nil" (some id)
         else bad
       else bad
@@ -318,13 +371,15 @@ partial def loop (h : IO.FS.Stream) (d : DS) : IO Unit := do
       if op == "w" || op == "wv" || op == "sf" then
         match d.get id.toNat!, parseAns ans with
         | some e, some ans =>
-          if e.c.kind == .udp || e.c.kind == .sess || e.c.kind == .acc || !e.c.visible then bad else
+          if e.c.kind == .udp || e.c.kind == .sess || e.c.kind == .acc || !reach e.c then bad else
           let sizes := (n.splitOn "+").map String.toNat!
-          let total := sizes.foldl (· + ·) 0
+          let total : Nat := sizes.foldl (· + ·) 0
+          -- the user operation itself: refused (and a no-op) on a closed conn
+          let d := stepE d e.id (.op 0)
           let c := e.c
-          if c.closed then say d op (fmtRet (if op == "w" then -1 else 0) .closed) (some e.id)
+          if !(userOp c 0).2 then say d op (fmtRet (if op == "w" then -1 else 0) .closed) (some e.id)
           else if op == "sf" then
-            if !c.q.isEmpty then say (d.put { e with c := { c with q := c.q ++ [.file total] } }) op (fmtRet total .nil) (some e.id)
+            if !c.q.isEmpty then say (setQE d e.id (c.q ++ [.file total])) op (fmtRet total .nil) (some e.id)
             else
               -- direct sendfile loop: EINTR retries, EAGAIN (or an exhausted script) queues the rest
               let rec go : List KAns → Nat → Option Bool   -- some true = sent, some false = queue, none = fail
@@ -336,7 +391,7 @@ partial def loop (h : IO.FS.Stream) (d : DS) : IO Unit := do
                 | .fail :: _, _ => none
               match go ans 64 with
               | some true => say d op (fmtRet total .nil) (some e.id)
-              | some false => say (d.put { e with c := { c with q := [.file total] } }) op (fmtRet total .nil) (some e.id)
+              | some false => say (setQE d e.id [.file total]) op (fmtRet total .nil) (some e.id)
               | none => say (failE d e.id .epipe) op (fmtRet 0 .epipe) (some e.id)
           else
             let single := op == "w" || sizes.length == 1
@@ -344,17 +399,17 @@ partial def loop (h : IO.FS.Stream) (d : DS) : IO Unit := do
             else if d.maxwb > 0 && left c + total > d.maxwb then say (failE d e.id .overflow) op (fmtRet (-1) .overflow) (some e.id)
             else if !c.q.isEmpty then
               let q := if single then enqueue c.q total else sizes.foldl (fun q k => if k == 0 then q else enqueue q k) c.q
-              say (d.put { e with c := { c with q := q } }) op (fmtRet total .nil) (some e.id)
+              say (setQE d e.id q) op (fmtRet total .nil) (some e.id)
             else
               match ans.head? with
-              | some .ok => say (d.put { e with c := { c with wT := false, wTdial := false } }) op (fmtRet total .nil) (some e.id)
+              | some .ok => say (stepE d e.id .clearW) op (fmtRet total .nil) (some e.id)
               | some .fail => say (failE d e.id .epipe) op (fmtRet (if single then -1 else 0) .epipe) (some e.id)
               | a =>
                 -- EAGAIN / EINTR / exhausted script: nothing could be written now, the whole input is cached
                 -- (Write and, since the C01 repairs, Writev alike; empty buffers are not queued)
                 let _ := a
                 let q := if single then [.buf total] else sizes.foldl (fun q k => if k == 0 then q else enqueue q k) []
-                say (d.put { e with c := { c with q := q } }) op (fmtRet total .nil) (some e.id)
+                say (setQE d e.id q) op (fmtRet total .nil) (some e.id)
         | _, _ => bad
       else if op == "close" then
         bad
@@ -362,25 +417,21 @@ partial def loop (h : IO.FS.Stream) (d : DS) : IO Unit := do
     | ["dl", id, k, _, cause] =>
       match d.get id.toNat! with
       | some e =>
-        if !e.c.visible then bad else
+        if !reach e.c then bad else
         if !(k == "r" || k == "w" || k == "rw") then bad else
-        let c := e.c
-        if c.closed then say d "dl" "nil" (some e.id) else
-        -- setDeadline arms (or re-arms, keeping its cause) the timer(s); the op waits for the close
-        let c := { c with rT := c.rT || k == "r" || k == "rw", wT := c.wT || k == "w" || k == "rw",
-                          wTdial := if (k == "w" || k == "rw") && !c.wT then false else c.wTdial }
+        if e.c.closed then say d "dl" "nil" (some e.id) else
+        -- setDeadline arms (or re-arms, keeping its cause) the timer(s); the op waits for the close. The annotation
+        -- only says WHICH timer fired (read or write side); the error is the model's
+        let d := stepE d e.id (.setDl (k == "r" || k == "rw") (k == "w" || k == "rw"))
         let cs := (cause.drop 6).toString
-        match parseErr cs with
-        | some er =>
-          let ok := (er == .rtimeout && c.rT) || (er == .wtimeout && c.wT && !c.wTdial) || (er == .dtimeout && c.wT && c.wTdial)
-          if ok then say (closeE (d.put { e with c }) e.id er) "dl" "nil" (some e.id)
-          else IO.println s!"R dl impossible-cause {cs}"; loop h d
-        | none => IO.println s!"R dl impossible-cause {cs}"; loop h d
+        if cs == "rtimeout" then say (settle (stepE d e.id .timerR) e.id) "dl" "nil" (some e.id)
+        else if cs == "wtimeout" || cs == "dtimeout" then say (settle (stepE d e.id .timerW) e.id) "dl" "nil" (some e.id)
+        else say (d.fail s!"impossible-cause-{cs}") "dl" "nil" (some e.id)
       | none => bad
     | ["close", id, k, errs, w] =>
       match d.get id.toNat! with
       | some e =>
-        if !e.c.visible then bad else
+        if !reach e.c then bad else
         let es := (errs.splitOn ",").map String.toNat!
         if k.toNat! == 0 || k.toNat! != es.length then bad else
         let win := (w.drop 7).toString
@@ -393,30 +444,31 @@ partial def loop (h : IO.FS.Stream) (d : DS) : IO Unit := do
     | ["x", id] =>
       match d.get id.toNat! with
       | some e =>
-        if !e.c.visible then bad else
-        let (_, ok) := userOp e.c 0
-        say d "x" (if ok then "true:1" else "false:0") (some e.id)
+        if !reach e.c then bad else
+        let ok := (userOp e.c 0).2
+        say (stepE d e.id (.op 0)) "x" (if ok then "true:1" else "false:0") (some e.id)
       | none => bad
     | ["ops", id] =>
       match d.get id.toNat! with
       | some e =>
-        if e.c.kind == .udp || !e.c.visible then bad else
-        let (c1, ok) := userOp e.c 1
-        if ok then say d "ops" "open" (some e.id)
-        else say (d.put { e with c := c1 }) "ops" "-1:closed/0:closed/0:closed/false/0:closed" (some e.id) (c1.log - e.c.log)
+        if e.c.kind == .udp || !reach e.c then bad else
+        if (userOp e.c 1).2 then say d "ops" "open" (some e.id)
+        else
+          -- Write / Writev / Sendfile / Execute / Read on the closed conn: the syscalls the model's step issues
+          let d := stepE d e.id (.op 1)
+          let lg := match d.get e.id with | some e1 => e1.c.log - e.c.log | none => 0
+          say d "ops" "-1:closed/0:closed/0:closed/false/0:closed" (some e.id) lg
       | none => bad
     | ["acc", id] =>
       let id := id.toNat!
       if (d.get id).isSome || !d.listen then bad else
-      let c0 : Conn := { kind := .acc }
-      let c1 := addReg (addTable (addOpen c0))
-      let d := note (d.put { id, c := c1, peer := true }) id c0 c1 .nil
+      let d := stepsE (newE d { id, c := mk .acc, peer := true } .acc) id [.addCheck, .addP, .addOpen, .addTable, .addReg]
       say d "acc" "nil" (some id)
     | [op, id] =>
       if op == "eof" || op == "rderr" then
         match d.get id.toNat! with
         | some e =>
-          if e.c.kind == .sess || e.c.kind == .acc || !e.c.visible || (e.c.kind == .dial && e.c.dialN == 1 && !e.c.inTable && !e.c.closed) then bad else
+          if e.c.kind == .sess || e.c.kind == .acc || !reach e.c || (e.c.kind == .dial && e.c.dialN == 1 && !e.c.inTable && !e.c.closed) then bad else
           say (d.put (if op == "eof" then { e with eof := true } else { e with rerr := true })) op "nil" (some e.id)
         | none => bad
       else if op == "cclose" || op == "creset" then
